@@ -135,6 +135,16 @@ def gen_world(rng, profile, tier):
     }
 
 
+def pick_buf(w, rng):
+    """Index of a buffer of the world: mostly one of the configured ones, sometimes any buffer that
+    exists by now (made by a context for one object, restored from a pickle, ...): those, too, must
+    keep working as allocators."""
+    n0 = len(w.spec["buffers"])
+    if len(w.bufs) > n0 and rng.random() < 0.25:
+        return rng.randrange(len(w.bufs))
+    return rng.randrange(n0)
+
+
 class Obj:
     def __init__(self, world, k, t, node, buf, off, hnd):
         self.w, self.k, self.t, self.node = world, k, t, node
@@ -352,7 +362,7 @@ class GenSource:
             return {"ctx": rng.randrange(len(w.ctxs))}
         if r < 0.12:
             return "default_ctx"
-        b = rng.randrange(len(w.spec["buffers"]))
+        b = pick_buf(w, rng)
         if r < 0.22:
             return {"buf": b, "how": "offset", "align": rng.random() < 0.5, "pad": rng.choice([0, 0, 8, 24])}
         return {"buf": b, "how": rng.choice(["default", "default", "aligned", "packed"])}
@@ -511,7 +521,7 @@ class GenSource:
             o = rng.choice(small)
         r = rng.random()
         if r < 0.45:
-            place = {"buf": w.bufs.index(o.buf) if o.buf in w.bufs[: len(w.spec["buffers"])] else 0, "how": "default"}
+            place = {"buf": w.bufs.index(o.buf), "how": "default"}
         else:
             place = self.place(w)
         op = {"op": "copy", "obj": o.k, "place": place, "id": self.new_id()}
@@ -533,7 +543,7 @@ class GenSource:
         live_regions = [i for i, r in enumerate(w.regions) if r is not None]
         if live_regions and rng.random() < 0.5:
             return {"op": "raw_free", "region": rng.choice(live_regions), "scribble": rng.getrandbits(31) if rng.random() < 0.7 else None}
-        return {"op": "raw_alloc", "buf": rng.randrange(len(w.spec["buffers"])), "size": rng.choice([1, 3, 8, 13, 24, 64, 100]), "align": rng.random() < 0.5, "fill": rng.getrandbits(31)}
+        return {"op": "raw_alloc", "buf": pick_buf(w, rng), "size": rng.choice([1, 3, 8, 13, 24, 64, 100]), "align": rng.random() < 0.5, "fill": rng.getrandbits(31)}
 
     def kill(self, w):
         """Free the allocation of a live top-level object (scribbling it first): objects copied
@@ -550,7 +560,7 @@ class GenSource:
             op = self.kill(w)
             if op is not None:
                 return op
-        b = rng.randrange(len(w.spec["buffers"]))
+        b = pick_buf(w, rng)
         if rng.random() < 0.3:
             return {"op": "grow_until", "buf": b}
         return {"op": "grow", "buf": b, "n": rng.choice([0, 1, 7, 8, 64, 256])}
@@ -1235,7 +1245,9 @@ class Step:
                 break
             # 4a: kept handle / default handle vs model
             try:
-                got = read_handle(w, o.t, o.handle())
+                # to_nplike / to_nparray are re-checked against item access on every step for the
+                # lenses about construction read-back and restart (a bulk view can go stale on its own)
+                got = read_handle(w, o.t, o.handle(), self.lens in ("C01", "C20"))
                 M.adopt_locs(None, got, w.schema, o.t, o.node)
             except Exception as e:
                 prop = step_prop.get(kind, "C10")
